@@ -151,6 +151,8 @@ def finish(spec, modname, tier, seed, reports, bounded, t0, write_ledger=False):
             checker_errors.append('zero obligations for %s' % r['name'])
         if r['feasible_end_paths'] == 0 and not r['out_of_subset']:
             checker_errors.append('vacuity: no feasible path reaches the end of %s' % r['name'])
+        if r.get('has_ensures') and r.get('return_paths', 1) == 0 and not r['out_of_subset']:
+            checker_errors.append('vacuity: no explored path of %s returns normally, its postcondition was never checked' % r['name'])
         for o in r['obligations']:
             n_obl += 1
             cid = '%s/%s/%s' % (pid, r['name'], o['name'])
